@@ -170,11 +170,11 @@ let ask (col : int) (cc : BinNums.coq_N list) (term : BinNums.coq_N list) : BinN
   | Some a -> runes_of_hex a.(col)
   | None -> []
 let o_vals = [ask 0; ask 1]
-(* AsTag does not see the country code *)
-let o_auths = [(fun t -> match Hashtbl.find_opt oracle ("*", str_of_runes t) with Some a -> runes_of_hex a.(2) | None -> []);
-               (fun t -> match Hashtbl.find_opt oracle ("*", str_of_runes t) with Some a -> runes_of_hex a.(3) | None -> [])]
+(* AsTag does not see the country code; the key of the request (country code + configuration of the
+   driver process that served it) selects the rows *)
 let cc_of (s : string) = if s = "-" then [] else decode s
-let rewrite_real cc wl = FndSearchC19.rewrite_tag_c19 is_letter is_number o_vals o_auths (cc_of cc) (wl = "1")
+let o_auths (key : string) = [ask 2 (cc_of key); ask 3 (cc_of key)]
+let rewrite_real cc wl = FndSearchC19.rewrite_tag_c19 is_letter is_number o_vals (o_auths cc) (cc_of cc) (wl = "1")
 
 let q_opt (s : string) = if s = "~" then None else Some (runes_of_hex s)
 let fs_sess cc i = { FndSearchC19.s_id = nn i; FndSearchC19.s_root = (i = "3"); FndSearchC19.s_cc = cc }
@@ -200,8 +200,9 @@ let fs_state (t : FndSearchC19.fnd_c19) =
   fmt_list "," (Tags.sort_strings t.FndSearchC19.f_tags) ^ "!"
   ^ String.concat "," (List.map (fun i -> fs_q (FndSearchC19.lookup_pub_c19 (n_of_int i) t.FndSearchC19.f_public)) [1; 2; 3])
   ^ "!" ^ fs_q t.FndSearchC19.f_private
-let fs_run masked own cc cands ops =
-  let cc = cc_of cc in
+let fs_run masked own cckey cands ops =
+  let cc = cc_of cckey in
+  let o_auths = o_auths cckey in
   let world = { FndSearchC19.cd_id = n_of_int 0; FndSearchC19.cd_user = true; FndSearchC19.cd_ok = true; FndSearchC19.cd_tags = list_of' own }
     :: List.map (fun s -> match String.split_on_char '.' s with
       | [i; k; st; l] -> { FndSearchC19.cd_id = nn i; FndSearchC19.cd_user = (k = "u"); FndSearchC19.cd_ok = (st = "0");
